@@ -207,8 +207,9 @@ func TestVerifIohelp(t *testing.T) {
 	o.count("dates", 8)
 
 	// ---- checked strings: every buffer length around the required width ---------------
+	counts := []uint32{0, 1, 2, 3, 4, 5, 6, 7, 8, 9, 0x7fffffff, 0x80000000, math.MaxUint32 - 4, math.MaxUint32 - 3, math.MaxUint32 - 2, math.MaxUint32 - 1, math.MaxUint32}
 	for n := 0; n <= 12; n++ {
-		for cnt := uint32(0); cnt <= 9; cnt++ {
+		for _, cnt := range counts {
 			b := make([]byte, n)
 			if n >= 4 {
 				WriteUint32Bytes(b, cnt)
@@ -223,14 +224,14 @@ func TestVerifIohelp(t *testing.T) {
 					o.fail(fn.name, "panic", map[string]interface{}{"len": n, "count": cnt}, p, "error")
 					continue
 				}
-				okWant := n >= 4 && n >= 4+int(cnt)
+				okWant := n >= 4 && uint64(n) >= 4+uint64(cnt)
 				if (err == nil) != okWant || (okWant && s != string(b[4:4+cnt])) {
 					o.fail(fn.name, "layout", map[string]interface{}{"len": n, "count": cnt}, fmt.Sprint(s, err), okWant)
 				}
 			}
 		}
 	}
-	o.count("string-lengths", 13*10*2)
+	o.count("string-lengths", 13*len(counts)*2)
 	// counts near 2^32 need a >4 GiB buffer (sparse allocation); the uint32 sum 4+sz wraps
 	if os.Getenv("VERIF_BIG") != "" || thorough {
 		big := make([]byte, 1<<32+8)
